@@ -161,13 +161,13 @@ def updateOptsOf (i : Json) : UpdateOpts :=
 
 /-- do the hypotheses of `Props.C08.update/deactivate/recover_built_accepted_windowed` (which
     contain the `…_unwindowed` ones: no window is the window 0, 0) hold for this step? `none`: the
-    step is not of that shape (create, a bound of 2^53 or beyond in magnitude) -/
+    step is not of that shape (create, a bound beyond 2^53 in magnitude — which the builders refuse) -/
 def signedPremises (cfg : Protocol) (orc : Oracles) (tab : List Json) (s : Json) : Option Bool :=
   let i := s.getD "info"
   let op := getStr s "op"
   let via := getStr s "via"
   if op = "create" then none
-  else if ¬ ((getInt i "anchorFrom").natAbs < 2 ^ 53 ∧ (getInt i "anchorUntil").natAbs < 2 ^ 53) then none
+  else if ¬ ((getInt i "anchorFrom").natAbs ≤ 2 ^ 53 ∧ (getInt i "anchorUntil").natAbs ≤ 2 ^ 53) then none
   else
     let af := getInt i "anchorFrom"
     let au := getInt i "anchorUntil"
